@@ -51,6 +51,26 @@ def to_lib(spec, epsilon='ε'):
     return CFG(set(Variable(v) for v in V), set(Terminal(t) for t in Sg), R, Variable(S), Terminal(epsilon))
 
 
+_LIVE = {}
+
+
+def morph(spec, epsilon='ε'):
+    """One live CFG rewritten in place for every instance (see spaces.morph_nfa)."""
+    from gambatools.cfg import Variable, Terminal, Rule, Alternative
+    G = _LIVE.get('cfg')
+    if G is None:
+        G = _LIVE['cfg'] = to_lib(spec, epsilon)
+        return G
+    _, V, Sg, rules, S = spec
+    Vs = set(V)
+    G.V.clear(); G.V.update(Variable(v) for v in V)
+    G.Sigma.clear(); G.Sigma.update(Terminal(t) for t in Sg)
+    del G.R[:]
+    G.R.extend(Rule(Variable(l), Alternative([Variable(x) if x in Vs else Terminal(x) for x in rhs])) for (l, rhs) in rules)
+    G.S = Variable(S)
+    return G
+
+
 def show(spec):
     _, V, Sg, rules, S = spec
     by = {}
@@ -228,6 +248,33 @@ def cfg_big(v):
     rules.append((names[v - 1], ()))
     rules.append((names[3], ('a',)))
     return ('cfg', tuple(names), ('a', 'b'), tuple(rules), 'S')
+
+
+def cfg3_units():
+    """Three-variable family for unit-rule cycles: every variable has any subset of unit rules to the other two
+    variables and at most one terminal rule; S may have one extra rule a.X.  6 912 grammars (unit cycles of
+    length 2 and 3, chains, diamonds)."""
+    V = ('S', 'A', 'B')
+    others = {v: [w for w in V if w != v] for v in V}
+    unit_opts = {v: [(), (others[v][0],), (others[v][1],), tuple(others[v])] for v in V}
+    term_opts = [None, 'a', 'b']
+    extra_opts = [None, ('a', 'S'), ('a', 'A'), ('a', 'B')]
+    idx = 0
+    for us in itertools.product(*[unit_opts[v] for v in V]):
+        for ts in itertools.product(term_opts, repeat=3):
+            for ex in extra_opts:
+                rules = []
+                for v, u, t in zip(V, us, ts):
+                    for w in u:
+                        rules.append((v, (w,)))
+                    if t:
+                        rules.append((v, (t,)))
+                    if v == 'S' and ex:
+                        rules.append((v, ex))
+                if not any(l == 'S' for l, _ in rules):
+                    continue
+                yield idx, ('cfg', ('A', 'B', 'S'), ('a', 'b'), tuple(rules), 'S')
+                idx += 1
 
 
 def cnf3(maxrules=5):
